@@ -66,7 +66,7 @@ Definition trash_of (before after : list container) : contents :=
 Definition conts_of (o : obj) : list container := match o with OC c => [c] | OP p => wells p end.
 
 (* one step of bake: new table and the snapshot.  [d13] = the implementation's treatment of fill_to on a slice
-   (the whole plate is filled first); the eager specification is the same function with d13 = false *)
+   (the whole plate is filled, step.to[0] being the plate); the eager specification is the same function with d13 = false *)
 Definition bake_step (cf : cfg) (d13 : bool) (e : renv) (s : rstep) : result (renv * snap) :=
   match s with
   | SCreate n mx init =>
@@ -130,7 +130,7 @@ Definition bake_step (cf : cfg) (d13 : bool) (e : renv) (s : rstep) : result (re
       Ok (rset n (OC c') e, {| s_objs := [n]; s_to := n; s_to0 := OC c; s_to1 := OC c'; s_frm := None; s_trash := []; s_subs := [solvent] |})
   | SFill (RP n r) solvent q =>
       do p <- getp e n;
-      do p' <- (if d13 then do p1 <- pfill_to cf p (whole p) solvent q; pfill_to cf p1 r solvent q else pfill_to cf p r solvent q);
+      do p' <- (if d13 then pfill_to cf p (whole p) solvent q else pfill_to cf p r solvent q);
       Ok (rset n (OP p') e, {| s_objs := [n]; s_to := n; s_to0 := OP p; s_to1 := OP p'; s_frm := None; s_trash := []; s_subs := [solvent] |})
   end.
 
